@@ -253,20 +253,22 @@ def decode_tokens(toks):
             return (T[t[0]], {"LBRACK": "[", "RBRACK": "]", "LANGLE": "<", "RANGLE": ">"}[t[0]], 1, 0, "")
         return (T[t[0]], t[1], 1, 0, "")
     lexer = util.LookaheadLexer(iter([raw(t) for t in toks]), MRSSyntaxError)
+    ms = []
     try:
-        ms = list(_decode_all(lexer))
+        while True:
+            try:
+                lexer.peek()
+            except StopIteration:
+                break
+            try:
+                ms.append(S._decode_mrs(lexer))
+            except StopIteration:
+                # the token stream ends inside an item: simplemrs.decode lets StopIteration escape and
+                # loads silently drops the item; both count as "not read" here
+                return {"err": "EOF"}
     except (MRSSyntaxError, ValueError) as e:
         return {"err": type(e).__name__}
     return {"ms": [mrs_obs(m) for m in ms]}
-
-
-def _decode_all(lexer):
-    from delphin.codecs import simplemrs as S
-    try:
-        while lexer.peek():
-            yield S._decode_mrs(lexer)
-    except StopIteration:
-        pass
 
 
 def mutate(toks, c):
